@@ -87,7 +87,11 @@ func Exprs() (plain, closures, closurePreds []string) {
 		"preceding-sibling::*", "descendant::a/descendant::b", "descendant::a//b", "//a//b", "a[b]", "*[2]", "*[last()]", "//b[1]", "(//a)[2]", "(//b)[last()]",
 		"a | b", "//a | //b", "*/(a, b)", "//*[b]", "//*[@x > 1]", "//*[ancestor::a]", "//*[following::b][1]", "//*[position() < 3]", "//a[b and @x]", "//*[a | b]",
 		"a = '1'", "//b = '1'", "* = 'zz'", "//@x > 1", "1 < //@x", "//a = //b", "* != *", "(//b)[1] = '1'", "a and b", "//a or //nosuch", "-(//@x)", "//@x + 1",
-		"count(//a) + count(*)", "a mod 2", "//text()", "text()", "self::a", "parent::a/b", "//*[. = '1']", "//*[not(b)]", "//a[count(b) = 1]",
+		"count(//a) + count(*)", "a mod 2",
+		// operators whose operands are operators over paths (every level of an operator tree must be private to a call)
+		"//@x * 2 + 1", "@x + @a + 1", "(//@x > 1) = (//a = '1')", "//*[@x * 2 + 1 = 3]", "count(//*[@x + @a = 2])", "-(//@x + 1)", "(a or b) and (//@x > 1)",
+		"//@x + 1 > count(*) - 1", "not(a) = (//@x > 1)", "//@x div 2 mod 2", "//*[(@x > 1) = (@a > 1)]", "(a and b) or (//b and //nosuch)", "1 + (2 * (//@x - 1))",
+		"//text()", "text()", "self::a", "parent::a/b", "//*[. = '1']", "//*[not(b)]", "//a[count(b) = 1]",
 	}
 	closures = []string{
 		"count(//a)", "count(*)", "sum(//@x)", "string(//b)", "string(*)", "name(*)", "local-name(//a)", "namespace-uri(*)", "concat(a, b)", "concat(//b, '-', //@x)",
